@@ -34,7 +34,10 @@ impl Server {
             let raw_response = Server::bad_request_response(message);
             let boxed_stream = stream.write_all(raw_response.borrow());
             if boxed_stream.is_ok() {
-                stream.flush().unwrap();
+                let boxed_flush = stream.flush();
+                if boxed_flush.is_err() {
+                    eprintln!("unable to flush TCP stream {}", boxed_flush.err().unwrap());
+                }
             };
             return raw_response;
         }
@@ -56,7 +59,10 @@ impl Server {
             let raw_response = Server::bad_request_response(message);
             let boxed_stream = stream.write_all(raw_response.borrow());
             if boxed_stream.is_ok() {
-                stream.flush().unwrap();
+                let boxed_flush = stream.flush();
+                if boxed_flush.is_err() {
+                    eprintln!("unable to flush TCP stream {}", boxed_flush.err().unwrap());
+                }
             };
             return raw_response;
         }
@@ -76,7 +82,10 @@ impl Server {
 
         let boxed_stream = stream.write_all(raw_response.borrow());
         if boxed_stream.is_ok() {
-            stream.flush().unwrap();
+            let boxed_flush = stream.flush();
+            if boxed_flush.is_err() {
+                eprintln!("unable to flush TCP stream {}", boxed_flush.err().unwrap());
+            }
         };
 
         raw_response
@@ -123,7 +132,11 @@ impl Server {
             let raw_response = Server::bad_request_response(read_message.clone());
             let boxed_stream = stream.write_all(raw_response.borrow());
             if boxed_stream.is_ok() {
-                stream.flush().unwrap();
+                let boxed_flush = stream.flush();
+                if boxed_flush.is_err() {
+                    let flush_message = boxed_flush.err().unwrap().to_string();
+                    return Err(flush_message);
+                }
             } else {
                 let write_message = boxed_stream.err().unwrap().to_string();
                 let combined_error = [read_message.clone(), SYMBOL.comma.to_string(), write_message].join(SYMBOL.empty_string);
@@ -149,7 +162,11 @@ impl Server {
             let raw_response = Server::bad_request_response(message.clone());
             let boxed_stream = stream.write_all(raw_response.borrow());
             if boxed_stream.is_ok() {
-                stream.flush().unwrap();
+                let boxed_flush = stream.flush();
+                if boxed_flush.is_err() {
+                    let flush_message = boxed_flush.err().unwrap().to_string();
+                    return Err(flush_message);
+                }
             } else {
                 let write_message = boxed_stream.err().unwrap().to_string();
                 let combined_error = [message, SYMBOL.comma.to_string(), write_message].join(SYMBOL.empty_string);
@@ -172,7 +189,11 @@ impl Server {
 
             let boxed_stream = stream.write_all(response.borrow());
             if boxed_stream.is_ok() {
-                stream.flush().unwrap();
+                let boxed_flush = stream.flush();
+                if boxed_flush.is_err() {
+                    let flush_message = boxed_flush.err().unwrap().to_string();
+                    return Err(flush_message);
+                }
             } else {
                 let write_message = boxed_stream.err().unwrap().to_string();
                 return Err(write_message);
@@ -193,7 +214,11 @@ impl Server {
 
         let boxed_stream = stream.write_all(raw_response.borrow());
         if boxed_stream.is_ok() {
-            stream.flush().unwrap();
+            let boxed_flush = stream.flush();
+            if boxed_flush.is_err() {
+                let flush_message = boxed_flush.err().unwrap().to_string();
+                return Err(flush_message);
+            }
         } else {
             let write_message = boxed_stream.err().unwrap().to_string();
             return Err(write_message);
